@@ -242,6 +242,9 @@ func sizeKnown(typ types.Type) bool {
 type atom struct {
 	d      *filt.DExpr
 	panics bool
+	// a predicate that is only defined behind a guard: it panics where the atom `defined` rejects and answers like the atom
+	// `value` elsewhere (both are measured on their own)
+	defined, value *filt.DExpr
 }
 
 const prelude = `
@@ -254,7 +257,19 @@ func boom(ctx *dsl.VarFilterContext) bool {
 	t := ctx.GetType("nosuchtype")
 	return ctx.SizeOf(t) > 0
 }
+
+func elemIsInt(ctx *dsl.VarFilterContext) bool {
+	// only defined for slices: the caller guards it with Type.Is("[]$_")
+	return types.Identical(types.AsSlice(ctx.Type).Elem(), ctx.GetType("int"))
+}
 `
+
+// the guard, the guarded predicate and what it answers where it is defined
+var (
+	guardAtom   = filt.Call("Type.Is", "x", filt.Str("[]$_"))
+	guardedAtom = filt.Call("Filter", "x", filt.Ident("elemIsInt"))
+	guardedIs   = filt.Call("Type.Is", "x", filt.Str("[]int"))
+)
 
 func atomPool() []atom {
 	pool := baseAtoms()
@@ -262,13 +277,15 @@ func atomPool() []atom {
 	for _, a := range pool {
 		seen[a.d.Coq()] = true
 	}
+	pool = append(pool, atom{d: guardAtom}, atom{d: guardedIs}, atom{d: guardedAtom, panics: true, defined: guardAtom, value: guardedIs})
+	seen[guardAtom.Coq()], seen[guardedIs.Coq()], seen[guardedAtom.Coq()] = true, true, true
 	// the literal spelling of every predicate the shared-spelling families use under a constant name
 	for _, na := range namedAtoms {
 		for _, v := range na.values {
 			d := filt.Call(na.path, na.v, filt.Str(v))
 			if !seen[d.Coq()] {
 				seen[d.Coq()] = true
-				pool = append(pool, atom{d, false})
+				pool = append(pool, atom{d: d})
 			}
 		}
 	}
@@ -277,18 +294,18 @@ func atomPool() []atom {
 
 func baseAtoms() []atom {
 	return []atom{
-		{filt.Sel("Pure", "x"), false},
-		{filt.Sel("Const", "x"), false},
-		{filt.Sel("Const", "y"), false},
-		{filt.Sel("Addressable", "x"), false},
-		{filt.Sel("Comparable", "y"), false},
-		{filt.Call("Type.Is", "x", filt.Str("int")), false},
-		{filt.Call("Type.Is", "y", filt.Str("string")), false},
-		{filt.Call("Type.Underlying.Is", "x", filt.Str("int")), false},
-		{filt.Call("Text.Matches", "x", filt.Str("^[a-z]")), false},
-		{filt.Call("Type.ConvertibleTo", "y", filt.Str("string")), false},
-		{filt.Call("Filter", "x", filt.Ident("longName")), false},
-		{filt.Call("Filter", "y", filt.Ident("boom")), true},
+		{d: filt.Sel("Pure", "x"), panics: false},
+		{d: filt.Sel("Const", "x"), panics: false},
+		{d: filt.Sel("Const", "y"), panics: false},
+		{d: filt.Sel("Addressable", "x"), panics: false},
+		{d: filt.Sel("Comparable", "y"), panics: false},
+		{d: filt.Call("Type.Is", "x", filt.Str("int")), panics: false},
+		{d: filt.Call("Type.Is", "y", filt.Str("string")), panics: false},
+		{d: filt.Call("Type.Underlying.Is", "x", filt.Str("int")), panics: false},
+		{d: filt.Call("Text.Matches", "x", filt.Str("^[a-z]")), panics: false},
+		{d: filt.Call("Type.ConvertibleTo", "y", filt.Str("string")), panics: false},
+		{d: filt.Call("Filter", "x", filt.Ident("longName")), panics: false},
+		{d: filt.Call("Filter", "y", filt.Ident("boom")), panics: true},
 	}
 }
 
@@ -469,7 +486,7 @@ func hasPanicAtom(d *filt.DExpr) bool {
 	if d == nil {
 		return false
 	}
-	if d.K == "call" && d.Path == "Filter" && len(d.Args) == 1 && d.Args[0].S == "boom" {
+	if d.K == "call" && d.Path == "Filter" && len(d.Args) == 1 && (d.Args[0].S == "boom" || d.Args[0].S == "elemIsInt") {
 		return true
 	}
 	return hasPanicAtom(d.X) || hasPanicAtom(d.Y)
@@ -512,6 +529,9 @@ type ruleCase struct {
 	Left      bool      `json:"left_out,omitempty"`
 	// ArgMacro: the constants are arguments of the macro call (the calls of the family's groups differ in them)
 	ArgMacro bool `json:"arg_macro,omitempty"`
+	// Dbg: the same engine run again with RunContext.Debug set (to this rule's group, to another group of the engine, to no
+	// group of the engine) and DebugPrint collecting
+	Dbg      []dbgRes `json:"dbg,omitempty"`
 	d        *filt.DExpr
 	whereSrc string // the Where() argument as written, when it is not d.Go() (a call of a group-local macro)
 	solo     bool   // run in its own engine (may panic or may fail to load)
@@ -525,6 +545,17 @@ type ruleCase struct {
 // identically over named constants (`m["x"].Type.Size > limit`, `m["x"].Text.Matches(pat)`); every group gives the names
 // its own values through function-local constant declarations, some names are file-level constants that only some groups
 // shadow. irconv folds the values into the IR, so the groups mean different filters although their source text is equal.
+
+// dbgRes: one run with RunContext.Debug set
+type dbgRes struct {
+	Debug   string `json:"debug"` // own | other | none-of-the-engine
+	Group   string `json:"group"` // the value of RunContext.Debug
+	Accept  []int  `json:"accept"`
+	Panic   string `json:"panic,omitempty"`
+	Rejects int    `json:"rejects"` // "rejected by" lines printed for this rule's group
+	// Reasons: the distinct reject reasons printed for this rule's group (each names a part of the filter)
+	Reasons []string `json:"reasons,omitempty"`
+}
 
 type aloneRes struct {
 	Accept  []int  `json:"accept"`
@@ -544,6 +575,9 @@ type otree struct {
 	Int  *int64  `json:"int,omitempty"`
 	Str  *string `json:"str,omitempty"`
 	Atom int     `json:"atom"`
+	// cmp2: two captures compared with one another: <Kind of Var> Tok <Kind2 of Var2>
+	Kind2 int    `json:"kind2"`
+	Var2  string `json:"var2,omitempty"`
 }
 
 type namedAtom struct {
@@ -866,6 +900,9 @@ func oracleTree(d *filt.DExpr, atomIndex map[string]int) *otree {
 			}
 			return &otree{K: k, X: oracleTree(d.X, atomIndex), Y: oracleTree(d.Y, atomIndex)}
 		}
+		if kindOfOperandOf(d.X) >= 0 && kindOfOperandOf(d.Y) >= 0 {
+			return &otree{K: "cmp2", Kind: kindOfOperand(d.X), Var: d.X.Var, Tok: d.Tok, Kind2: kindOfOperand(d.Y), Var2: d.Y.Var}
+		}
 		op, c, tok := d.X, d.Y, d.Tok
 		if d.X.K == "int" || d.X.K == "str" {
 			op, c, tok = d.Y, d.X, mirrorTok[d.Tok]
@@ -930,9 +967,16 @@ func main() {
 	addTarget("stale", detachedSpecs, amd64, st, err)
 
 	// runTargets runs the engine over the targets in order (one sequence of matches: a panic ends it)
+	var runTargetsDebug func(e *ruleguard.Engine, debug string, sink func(r hutil.Report, j, site int)) (string, []string)
 	runTargets := func(e *ruleguard.Engine, sink func(r hutil.Report, j, site int)) string {
+		pmsg, _ := runTargetsDebug(e, "", sink)
+		return pmsg
+	}
+	// runTargetsDebug: the same with RunContext.Debug = debug and DebugPrint collecting the lines
+	runTargetsDebug = func(e *ruleguard.Engine, debug string, sink func(r hutil.Report, j, site int)) (string, []string) {
+		var lines []string
 		for _, tg := range tgts {
-			reports, pmsg := runWithSizes(e, tg.t, tg.sizes)
+			reports, pmsg := runWithSizes(e, tg.t, tg.sizes, debug, &lines)
 			for _, r := range reports {
 				s := tg.byPos[r.Pos]
 				if s == nil {
@@ -942,10 +986,10 @@ func main() {
 				sink(r, s.J, tg.base+s.I)
 			}
 			if pmsg != "" {
-				return pmsg
+				return pmsg, lines
 			}
 		}
-		return ""
+		return "", lines
 	}
 
 	// what the engine itself says the text of each capture is: `$x`, `$y`, `$$` interpolated into a report message
@@ -1048,8 +1092,16 @@ func main() {
 	// ---- the rule list
 	var cases []*ruleCase
 	famIndex := -1
+	atomIndex := map[string]int{}
+	for i, a := range g.atoms {
+		atomIndex[a.d.Coq()] = i
+	}
 	add := func(family, role string, d *filt.DExpr, atomIdx int) {
 		c := &ruleCase{K: "rule", Idx: len(cases), Family: family, Role: role, Src: d.Go(), Coq: d.Coq(), Atom: atomIdx, d: d, Accept: []int{}}
+		if family != "atom" {
+			// every generated filter in the form the check's own evaluator reads (Go's operators over the go/types facts)
+			c.Tree = oracleTree(d, atomIndex)
+		}
 		c.wantJ = len(cases) % W
 		c.group = fmt.Sprintf("b%d", len(cases)/W)
 		if famIndex >= 0 {
@@ -1082,6 +1134,25 @@ func main() {
 		boom := filt.Call("Filter", "y", filt.Ident("boom"))
 		add(fam, "and_boom", filt.And(F, boom), -1)
 		add(fam, "or_boom", filt.Or(F, boom), -1)
+	}
+	// ---- guard families: a predicate that is only defined behind its guard (it dereferences the slice type the guard established)
+	// must never be consulted where the guard decides
+	for f := 0; f < (*nfam+5)/6; f++ {
+		fam := fmt.Sprintf("guard%d", f)
+		famIndex = f
+		F := g.sub(1+rng.Intn(2), false)
+		guarded := filt.And(guardAtom, guardedAtom)
+		add(fam, "guarded", guarded, -1)
+		add(fam, "guarded_or", filt.Or(filt.Not(guardAtom), guardedAtom), -1)
+		add(fam, "not_guarded", filt.Not(filt.Paren(guarded)), -1)
+		if f%2 == 0 {
+			add(fam, "guarded_more", filt.And(filt.Paren(guarded), F), -1)
+		} else {
+			add(fam, "guarded_more", filt.Or(F, filt.Paren(filt.And(guardAtom, filt.Not(guardedAtom)))), -1)
+		}
+		add(fam, "three", filt.And(filt.And(guardAtom, guardedAtom), filt.Not(F)), -1)
+		// without the guard the run ends on the first match that reaches the predicate with something that is not a slice
+		add(fam, "unguarded", filt.And(F, guardedAtom), -1)
 	}
 	for f := 0; f < *nfam; f++ {
 		fam := fmt.Sprintf("cmp%d", f)
@@ -1153,12 +1224,32 @@ func main() {
 			rc.Cmp = ci
 		}
 	}
+	// ---- chains of look-alike operands over different captures (chains.go): every kind x operator x connective each run,
+	// each also negated as a whole; then chains of one predicate
+	famIndex = -1
+	cg := &chainGen{g: g, rng: rng, factsAt: factsAt, nSites: nSites}
+	nchain := 0
+	for kind := 0; kind < 4; kind++ {
+		for ti, tok := range cmpToks {
+			for ci, conn := range []string{"LOR", "LAND"} {
+				n := 3 + rng.Intn(3)
+				assoc := (kind + ti + ci) % 3
+				mixed := (kind*12+ti*2+ci)%5 == 4
+				d := cg.cmpChain(kind, tok, conn, n, len(cases)%W, assoc, mixed)
+				add(fmt.Sprintf("chain%d", nchain), "chain", d, -1)
+				d2 := cg.cmpChain(kind, tok, conn, n, len(cases)%W, (assoc+1)%3, false)
+				add(fmt.Sprintf("chain%d", nchain), "not_chain", filt.Not(filt.Paren(d2)), -1)
+				nchain++
+			}
+		}
+	}
+	for k := 0; k < 8; k++ {
+		add(fmt.Sprintf("chain%d", nchain), "chain", cg.predChain([]string{"LOR", "LAND"}[k%2], 3+rng.Intn(2), k%3), -1)
+		nchain++
+	}
+
 	// ---- shared-spelling families
 	famIndex = -1
-	atomIndex := map[string]int{}
-	for i, a := range g.atoms {
-		atomIndex[a.d.Coq()] = i
-	}
 	const G = 6
 	type sharedFam struct {
 		members  []*ruleCase
@@ -1485,9 +1576,55 @@ func main() {
 				c.Panic = pmsg
 			}
 		}
+		// ---- the same engine with RunContext.Debug set: a solo rule with its own group and with a group the engine does not
+		// have; a batch with the group of one member (its neighbours are then run "while another group is being debugged")
+		type dbgRun struct{ kind, group string }
+		var runs []dbgRun
+		own := fmt.Sprintf("g%d", batch[debugPick%len(batch)].Idx)
+		debugPick++
+		if len(batch) == 1 {
+			runs = []dbgRun{{"own", own}, {"none-of-the-engine", "nosuchgroup"}}
+		} else if debugBatches {
+			runs = []dbgRun{{"other", own}}
+		}
+		for _, dr := range runs {
+			acc := map[int][]int{}
+			dpmsg, lines := runTargetsDebug(e, dr.group, func(r hutil.Report, j, site int) {
+				c := idx[r.Group]
+				if c == nil || j != c.J {
+					fmt.Fprintf(os.Stderr, "report cannot be attributed: %+v\n", r)
+					os.Exit(3)
+				}
+				acc[c.Idx] = append(acc[c.Idx], site)
+			})
+			// the lines DebugPrint received: "<file>:<line>: [rules.go:<line>] rejected by <reason>" per rejected match of the group
+			rejects := 0
+			reasons := map[string]bool{}
+			for _, ln := range lines {
+				if k := strings.Index(ln, "] rejected by "); k >= 0 && !strings.HasPrefix(ln, "  $") {
+					rejects++
+					reasons[ln[k+len("] rejected by "):]] = true
+				}
+			}
+			for _, c := range batch {
+				res := dbgRes{Debug: dr.kind, Group: dr.group, Accept: append([]int{}, acc[c.Idx]...), Panic: dpmsg}
+				if fmt.Sprintf("g%d", c.Idx) == dr.group {
+					res.Debug = "own"
+					res.Rejects = rejects
+					for r := range reasons {
+						res.Reasons = append(res.Reasons, r)
+					}
+					sort.Strings(res.Reasons)
+				} else {
+					res.Rejects = -1
+				}
+				c.Dbg = append(c.Dbg, res)
+			}
+		}
 	}
 	runBatchOne = func(c *ruleCase) {
 		c.Accept = []int{}
+		c.Dbg = nil
 		runBatch([]*ruleCase{c})
 	}
 	groups := map[string][]*ruleCase{}
@@ -1588,11 +1725,16 @@ func main() {
 		Rules  int    `json:"rules"`
 		Atoms  int    `json:"atoms"`
 		Panics []int  `json:"panic_atoms"`
+		// Partial: atom -> (the atom whose verdict says where it is defined, the atom whose verdict it has there)
+		Partial map[string][2]int `json:"partial_atoms"`
 	}
-	m := meta{K: "meta", Sites: nSites, W: W, Rules: len(cases), Atoms: len(g.atoms)}
+	m := meta{K: "meta", Sites: nSites, W: W, Rules: len(cases), Atoms: len(g.atoms), Partial: map[string][2]int{}}
 	for i, a := range g.atoms {
 		if a.panics {
 			m.Panics = append(m.Panics, i)
+		}
+		if a.defined != nil {
+			m.Partial[fmt.Sprint(i)] = [2]int{atomIndex[a.defined.Coq()], atomIndex[a.value.Coq()]}
 		}
 	}
 	enc.Encode(m)
@@ -1600,15 +1742,20 @@ func main() {
 
 var runBatchOne func(c *ruleCase)
 
+// debugPick rotates the member of a batch whose group is being debugged; debugBatches: batches get a Debug run too
+var debugPick int
+var debugBatches = true
+
 // runWithSizes: hutil.Run with the platform sizes of the RunContext chosen by the caller; the reports delivered before a
 // panic are kept.
-func runWithSizes(e *ruleguard.Engine, t *hutil.Target, sizes types.Sizes) (reports []hutil.Report, panicMsg string) {
+func runWithSizes(e *ruleguard.Engine, t *hutil.Target, sizes types.Sizes, debug string, debugLines *[]string) (reports []hutil.Report, panicMsg string) {
 	defer func() {
 		if r := recover(); r != nil {
 			panicMsg = fmt.Sprint(r)
 		}
 	}()
-	ctx := &ruleguard.RunContext{Pkg: t.Pkg, Types: t.Info, Sizes: sizes, Fset: t.Fset,
+	ctx := &ruleguard.RunContext{Pkg: t.Pkg, Types: t.Info, Sizes: sizes, Fset: t.Fset, Debug: debug,
+		DebugPrint: func(s string) { *debugLines = append(*debugLines, s) },
 		Report: func(data *ruleguard.ReportData) {
 			r := hutil.Report{Message: data.Message, Line: data.RuleInfo.Line}
 			if data.RuleInfo.Group != nil {
